@@ -8,11 +8,12 @@ STUBS = "stubs: os.walk/scandir/isdir/isfile/exists/makedirs/abspath (virtual tr
 
 S1 = ("in", [], ["b.cmake", "A.CMAKE", "c.txt", "a-1.x.cmake"])
 S2 = ("in", [("z0", [], ["x.cmake"]), ("y1", [], ["x.cmake", "n.txt"])], ["b.cmake", "c.txt"])
+S2q = ("in", [("z0", [], ["x.cmake"]), ("y1", [], ["x.cmake"])], ["b.cmake"])
 S2b = ("in", [("z0", [], ["n.txt"]), ("y1", [], ["M.CMake", "m.cmake"]), ("x2", [], ["q.cmake"])], ["b.cmake"])
 S3 = ("in", [("d1", [("d2", [("d3", [], ["k.cmake"])], ["j.cmake"])], ["i.cmake"])], ["h.cmake"])
 S4 = ("in", [("mid", [("deep", [], ["k.cmake"])], ["n.txt"])], ["h.cmake"])
 S5 = ("in", [("docs", [], ["old.rst"])], ["h.cmake", "g.cmake"])
-SKELS = {"S1": S1, "S2": S2, "S2b": S2b, "S3": S3, "S4": S4, "S5": S5}
+SKELS = {"S1": S1, "S2": S2, "S2q": S2q, "S2b": S2b, "S3": S3, "S4": S4, "S5": S5}
 
 
 def tree_ob(prefix, skel, mode, fix, fixp=True, fixrev=False, timeout=300, note="", fixexcl=False):
